@@ -316,8 +316,15 @@ class AsyncConnectionPool(AsyncRequestInterface):
                 for connection in self._connections
                 if connection.can_handle_request(origin) and connection.is_available()
             ]
+            # An idle connection that a request has already been assigned to
+            # is about to be used: it must not be closed to make room.
             idle_connections = [
-                connection for connection in self._connections if connection.is_idle()
+                connection
+                for connection in self._connections
+                if connection.is_idle()
+                and not any(
+                    request.connection is connection for request in self._requests
+                )
             ]
 
             # There are three cases for how we may be able to handle the request:
